@@ -290,7 +290,7 @@ class WorldScenario:
             cid = r.pick(["x1", "x2"])
             add("bad_client", {"op": "bad_client", "conn": cid, "what": "garbage", "i": r.randrange(len(GARBAGE))})
             add("bad_client", {"op": "bad_client", "conn": cid, "what": r.pick(["abort", "eof", "enqueue_abort",
-                                                                               "cancel_unknown", "reconnect"])}, 0.6)
+                                                                               "cancel_unknown", "reconnect", "stall"])}, 0.6)
         files_out = [o for t in w.model.targets.values() for o in t.outputs]
         if w.model.sources:
             add("modify_source", {"op": "modify_source", "f": r.pick(w.model.sources)})
@@ -460,6 +460,12 @@ class WorldScenario:
         elif what == "cancel_unknown":
             c.send(L.encode("cancel_task", tid=424242).encode())
             w.fault("cancel_unknown_id")
+        elif what == "stall":
+            # stays connected, keeps asking, never reads: its socket buffers fill up
+            c.reading = False
+            for _ in range(120):
+                c.send(L.encode("get_task_states").encode())
+            w.fault("stalled_reader")
         w.local.pump()
 
     def _on_job_start(self, w, j):
